@@ -119,6 +119,7 @@ func checkC16(c *Ctx, r *Report) {
 		return ok && strings.HasPrefix(p, opts.Name()+".")
 	}
 	nUnchanged := 0
+	reported := map[*ssa.Return]bool{}
 	for _, ret := range Returns(foo) {
 		if len(ret.Results) != 2 {
 			continue
@@ -139,7 +140,30 @@ func checkC16(c *Ctx, r *Report) {
 				}
 			}
 			if v != ssa.Value(opts) {
-				continue // new options or error return
+				// new options or an error return. New options are built in this call: a copy of the incoming ones made
+				// here (`newOpts := *opts`) that gets the tree looked up for this key. Options taken from anywhere else —
+				// a memo kept in a field, a package variable — were derived for another key or another tree, and every
+				// whole-value copy of the options carries such a memo along.
+				if len(ret.Results) == 2 && nilness(RetVal(ret, 1), ret.Block(), 0) != 1 && !IsNilConst(v) {
+					fresh := true
+					for _, src := range Sources(v) {
+						if src == ssa.Value(opts) {
+							continue
+						}
+						if al, isAlloc := src.(*ssa.Alloc); !isAlloc || al.Parent() != foo {
+							fresh = false
+						}
+					}
+					key := "derived options built in this call"
+					if !fresh && !reported[ret] {
+						reported[ret] = true
+						r.Bad("R16b", name, key, c.Pos(ret.Pos()), "the options returned for a key are neither the incoming ones nor a copy made in this call ("+describeVals(Sources(v))+"): options kept from an earlier lookup carry the tree and the policy of the place they were derived at")
+					} else if fresh && !reported[ret] {
+						reported[ret] = true
+						r.OK("R16b", name, key, c.Pos(ret.Pos()), "the incoming options or a copy made in this call")
+					}
+				}
+				continue
 			}
 			nUnchanged++
 			treeNil, treeEqChild, arrayHop := false, false, false
@@ -212,6 +236,61 @@ func checkC16(c *Ctx, r *Report) {
 			}
 		}
 		r.Check(ok && same, "R16c", c.FnName(dict), "options of (k,-1)", c.Pos(ci.Pos()), "handling looked up for the key that is stored", "the dictionary loop looks up the handling of a key other than the one it merges, or not as a named key (idx -1)")
+	}
+	// R16g: the merge of a key runs with the answer of the lookup for that key, on every path
+	r.Rule("R16g", "every call of mergeValues receives the options fieldOptsOverride returned (for the key or index being merged); the caller's own options reach it only where the handling tree was tested to be nil", 2)
+	mv := c.Func("", "mergeValues")
+	for _, fn := range c.SrcFuncs() {
+		if fn.Pkg != c.SSA[""] || fn == mv {
+			continue
+		}
+		for _, ci := range CallsTo(fn, mv, false) {
+			var oa ssa.Value
+			for _, a := range ci.Common().Args {
+				if pt, isPtr := a.Type().(*types.Pointer); isPtr && isNamed(pt.Elem(), c.Pkgs[""].PkgPath, "options") {
+					oa = a
+				}
+			}
+			if oa == nil {
+				r.add("R16g", c.FnName(fn), "options of mergeValues", c.Pos(ci.Pos()), Undecided, true, "mergeValues is called without an *options argument")
+				continue
+			}
+			bad := ""
+			var visit func(v ssa.Value, at, into *ssa.BasicBlock, depth int)
+			seen := map[ssa.Value]bool{}
+			visit = func(v ssa.Value, at, into *ssa.BasicBlock, depth int) {
+				if seen[v] || depth > 8 {
+					return
+				}
+				seen[v] = true
+				switch x := v.(type) {
+				case *ssa.Phi:
+					for i, e := range x.Edges {
+						visit(e, x.Block().Preds[i], x.Block(), depth+1)
+					}
+					return
+				case *ssa.Extract:
+					if call, ok := x.Tuple.(*ssa.Call); ok && x.Index == 0 && call.Call.StaticCallee() == foo {
+						return
+					}
+				}
+				// anything else: fine only where the tree is known to be nil
+				conds := DomConds(at)
+				if ifi, isIf := lastInstr(at).(*ssa.If); isIf && into != nil && len(at.Succs) == 2 && at.Succs[0] != at.Succs[1] {
+					conds = append(append([]Cond{}, conds...), Cond{V: ifi.Cond, Truth: at.Succs[0] == into}) // the edge itself
+				}
+				for _, cd := range conds {
+					tv, neq, ok := nilTest(cd.V)
+					if ok && cd.Truth != neq && IsLoadOfField(tv, "options", "fieldHandlingTree") {
+						return
+					}
+				}
+				bad = describeVals([]ssa.Value{v})
+			}
+			visit(oa, ci.Block(), nil, 0)
+			r.Check(bad == "", "R16g", c.FnName(fn), "options of mergeValues", c.Pos(ci.Pos()), "the result of fieldOptsOverride on every path",
+				"a key is merged with options that did not come out of the handling-tree lookup for it ("+bad+"): on that path the per-field policy named for the key, and the cut of the tree for a key that is not named, are skipped")
+		}
 	}
 	arrFn := c.Func("", "mergeConfigArr")
 	for _, ci := range CallsTo(arrFn, foo, false) {
